@@ -157,8 +157,14 @@ def range_rule(repo, rep):
     direction a hair west of north (|t| below half an ulp of 360, e.g. rect2polar(-1e-9, 1e7)) the sum rounds to 360.0 exactly.  The exact
     model cannot see that (the test `t + 360 >= 360` under `t < 0` is dead there), so the closing test is demanded structurally: after the
     wrap the same variable is compared with 360 (>=, ==) and brought back."""
-    f = repo.func('geodepy.convert', 'rect2polar')
-    key = 'R-RANGE::geodepy/convert.py::rect2polar::theta<360'
+    _range_rule_for(repo, rep, repo.func('geodepy.convert', 'rect2polar'), True)
+    # ... and any routine of geodepy.survey that wraps a bearing itself (a private copy of rect2polar inside joins needs the closing test too)
+    for f_ in repo.module('geodepy.survey').all_functions():
+        _range_rule_for(repo, rep, f_, False)
+
+
+def _range_rule_for(repo, rep, f, required):
+    key = 'R-RANGE::%s::%s::theta<360' % (f.module.relpath, f.qualname)
     wraps = []
     for n in ast.walk(f.node):
         v = None
@@ -173,7 +179,8 @@ def range_rule(repo, rep):
         if v is not None:
             wraps.append((n, v))
     if not wraps:
-        rep.undecided('R-RANGE', key, where(f, f.node), 'no `+ 360` / `% 360` wrap of the bearing found in rect2polar')
+        if required:
+            rep.undecided('R-RANGE', key, where(f, f.node), 'no `+ 360` / `% 360` wrap of the bearing found in rect2polar')
         return
     for n, v in wraps:
         closing = [c for c in ast.walk(f.node) if isinstance(c, ast.Compare) and c.lineno >= n.lineno and len(c.ops) == 1 and isinstance(c.ops[0], (ast.GtE, ast.Eq))
@@ -182,7 +189,7 @@ def range_rule(repo, rep):
             rep.holds('R-RANGE', key, where(f, closing[0]), 'after the wrap `%s` the bearing is compared with 360 and brought back: the result stays in [0, 360) under rounding' % stmt_text(n)[:40])
         else:
             rep.violated('R-RANGE', key, where(f, n), 'the bearing is wrapped by `%s` and never compared with 360 afterwards: for a direction a hair west of north the sum rounds to 360.0 '
-                         '(rect2polar(-1e-9, 1e7) and joins(0, 0, -1e-9, 1e7) return 360.0), outside the half-open range [0, 360) of the property' % stmt_text(n)[:40],
+                         '(rect2polar(-1e-9, 1e7) and joins(0, 0, -1e-9, 1e7) return 360.0), outside the half-open range [0, 360) of the property [%s]' % (stmt_text(n)[:40], f.qualname),
                          expected='if theta >= 360: theta = 0.0', actual='no closing test')
 
 
